@@ -40,6 +40,8 @@ type GenConfig struct {
 	// SharedDirs: several packages may live in one directory, and some files have no package statement
 	// (both are lint violations, never with Styled).
 	SharedDirs bool
+	// NoPackagePct: share of files without package statement when SharedDirs is on (0 = the default 8)
+	NoPackagePct int
 }
 
 // DefaultConfig is a moderately sized wild configuration.
@@ -290,7 +292,11 @@ func GenWorkspace(t *rapid.T, cfg GenConfig) *Workspace {
 	for i := 0; i < nFiles; i++ {
 		p := pkgs[pkgOfFile[i]]
 		f := &File{ID: g.id("file"), Package: p.name}
-		if cfg.SharedDirs && !cfg.Styled && g.pct("nopackage", 8) {
+		noPkg := 8
+		if cfg.NoPackagePct > 0 {
+			noPkg = cfg.NoPackagePct
+		}
+		if cfg.SharedDirs && !cfg.Styled && g.pct("nopackage", noPkg) {
 			f.Package = ""
 		}
 		f.Path = p.dir + "/" + g.word() + ".proto"
@@ -516,6 +522,26 @@ func (g *gen) genFileBody(f *File) {
 	}
 	if cfg.FileOptions {
 		f.Options = append(f.Options, g.customOpts("FileOptions", f)...)
+	}
+	if cfg.FileOptions && !cfg.Styled && g.pct("trackedfileopts", 30) {
+		// a few of the file options the breaking rules track, each with its own value
+		for k := g.intn("ntrackedopts", 1, 4); k > 0; k-- {
+			o := trackedFileOptions[g.intn("trackedopt", 0, len(trackedFileOptions)-1)]
+			if _, has := GetOption(f.Options, o.name); has {
+				continue
+			}
+			var v string
+			switch o.kind {
+			case "bool", "booltrue":
+				v = []string{"true", "false"}[g.intn("trackedbool", 0, 1)]
+			case "optimize":
+				// LITE_RUNTIME constrains who may import the file: not generated
+				v = []string{"SPEED", "CODE_SIZE"}[g.intn("trackedoptimize", 0, 1)]
+			default:
+				v = `"` + lowerSnakeToPascal(g.word()) + `"`
+			}
+			f.Options = append(f.Options, Option{o.name, v})
+		}
 	}
 	if cfg.UnusedImports && len(earlier) > 0 && g.pct("unused", 25) {
 		cand := earlier[g.intn("unusedfile", 0, len(earlier)-1)]
